@@ -592,9 +592,18 @@ def rule_stepinit(ctx: Ctx) -> List[Ob]:
         if outcome:
             a, b = sorted([sp.expand(1 / sp.sqrt(sp.Symbol("<d|d>"))), sp.expand(smax)], key=sp.default_sort_key)
             ref = Sc(sp.Function("min")(a, b))
+        else:
+            # the unit step, but never beyond the largest feasible step: by rounding the bound ratio of the variable that
+            # blocks the subspace step can come out one ulp below 1, dcsrch then refuses a start with stp > stpmax, the search
+            # is lost and the memory rebooted -- a last-bit difference (e.g. in a restored memory) changes the next iterate
+            a, b = sorted([sp.Integer(1), sp.expand(smax)], key=sp.default_sort_key)
+            ref = Sc(sp.Function("min")(a, b))
         ok = v is not None and equal(v, ref)[0]
+        why_ = ""
+        if not ok and not outcome and v is not None and equal(v, Sc(1))[0]:
+            why_ = ": the plain unit step can exceed stpmax by an ulp (finding 15)"
         obs.append(ob("STEPINIT", f"initial step ({'first unboxed iteration' if outcome else 'otherwise'})", f, init_stmt, ok,
-                      f"steplength_0 = {v.e if v is not None else '?'}" + ("" if ok else f"; reference {ref.e}"),
+                      f"steplength_0 = {v.e if v is not None else '?'}" + ("" if ok else f"; reference {ref.e}{why_}"),
                       construct=f"steplength_0 [{outcome}]"))
     # what the first dcsrch call receives: the start value and the slope g0.d (located by dataflow, not by name)
     from ..flow import Expander
